@@ -654,6 +654,13 @@ def parseExtras (prop : String) (c : ParseCtx) (v : Verdict) : R Verdict := do
           -- every syntax Error lies within the extent of the malformed member
           && fr.diags.all (fun d => d.kind != .error || (gs ≤ d.range.start.off && d.range.stop.off ≤ ge))
       v := v.addSpec "C14" ok
+      -- K2 (known finding): inside an enum body `,` is also the separator of annotation parameters, so a
+      -- malformed element with an unclosed `(` does not end at its `,`: the following element is swallowed
+      let gtoks := ((g.getObjVal? "tokens").toOption.bind (fun t => (list str t).toOption)).getD []
+      let isEnum := ((g.getObjVal? "enum").toOption.bind (·.getBool?.toOption)).getD false
+      let k2 := isEnum && (gtoks.filter (· == "(")).length > (gtoks.filter (· == ")")).length
+      if !ok && k2 then
+        v := v.addDetail "known_finding" (Json.mkObj [("id", "K2"), ("example", Json.arr (gtoks.map Json.str).toArray)])
       if !ok then
         v := v.addDetail "C14" (Json.mkObj [("garbage", Json.arr #[gs, ge]),
           ("members", Json.arr ((c.stage1.head?.bind (·.ast)).map Spec.PL.sxMembers |>.getD [] |>.map Json.str).toArray),
